@@ -9,6 +9,25 @@ def main():
     prop, path = sys.argv[1], sys.argv[2]
     v = json.load(open(path))
     fam = v.get("family", "win")
+    sc = v.get("replay") or {}
+    import re
+    mon = re.search(r"\((Trace\w+)\)", v.get("what", ""))
+    if isinstance(sc, dict) and mon and ("sql" in sc or "texts" in sc or "ops" in sc) and "cfg" not in sc:
+        # sequential families: one scenario through the seq / parse driver, validated by the monitor named in the violation
+        monitor = mon.group(1)
+        sub = "parse" if "texts" in sc else "seq"
+        spec_dir = os.path.join(vlib.VERIF, "spec", "pipe" if monitor in ("TraceIso", "TraceIngest", "TraceLifecycle", "TraceApi") else "sem")
+        vh = vlib.build_vh()
+        sp = os.path.join(vlib.scratch(), "one.scen"); tp = os.path.join(vlib.scratch(), "one.trace")
+        open(sp, "w").write(json.dumps(dict(sc, tr=1)) + "\n")
+        rc, out = vlib.sh([vh, sub, "-scen", sp, "-out", tp], 300)
+        print(out.strip())
+        kd = set(vlib.known_devs(prop))
+        rej, _, _ = vlib.validate(spec_dir, monitor, tp, kd)
+        for r in rej:
+            print("REJECT", r)
+        print("VIOLATION property=%s replay=%s" % (prop, path) if rej else "scenario accepted (not reproduced)")
+        sys.exit(1 if rej else 0)
     import importlib
     mod = importlib.import_module({"win": "win"}.get(fam, fam))
     import inspect
